@@ -674,12 +674,18 @@ func minimise(cs caseSpec, kind string) caseSpec {
 			}
 		}
 	}
+	// Only a plain valid version may be replaced, and only by a simpler plain
+	// valid version: swapping entry shapes (null, nometa, bad ...) in or out
+	// could turn the case into a different defect with the same symptom.
 	for i := range cur.List {
+		if !plainVersion(cur.List[i]) {
+			continue
+		}
 		for _, tok := range alphabets[cur.Alpha] {
 			if tok == cur.List[i] {
 				break
 			}
-			if try(cur.with(func(n *caseSpec) { n.List[i] = tok })) {
+			if plainVersion(tok) && try(cur.with(func(n *caseSpec) { n.List[i] = tok })) {
 				break
 			}
 		}
@@ -688,6 +694,15 @@ func minimise(cs caseSpec, kind string) caseSpec {
 		try(cur.with(func(n *caseSpec) { n.Spelling = "yaml" }))
 	}
 	return cur
+}
+
+func plainVersion(tok string) bool {
+	switch tok {
+	case "null", "nometa", "nourls", "empty":
+		return false
+	}
+	_, ok := parseSV(tok)
+	return ok
 }
 
 func keyOf(cs caseSpec, kind string) string {
